@@ -42,14 +42,14 @@ type VariantResult struct {
 }
 
 type VariantReport struct {
-	Total   int             `json:"total"`
-	Caught  int             `json:"caught"`
-	Missed  int             `json:"missed"`
-	Skipped int             `json:"skipped"`
+	Total   int `json:"total"`
+	Caught  int `json:"caught"`
+	Missed  int `json:"missed"`
+	Skipped int `json:"skipped"`
 	// benign (behaviour-preserving) variants: silent is good, a false alarm fails the self-test
-	Silent      int `json:"benign_silent"`
-	FalseAlarms int `json:"benign_false_alarms"`
-	Results []VariantResult `json:"results"`
+	Silent      int             `json:"benign_silent"`
+	FalseAlarms int             `json:"benign_false_alarms"`
+	Results     []VariantResult `json:"results"`
 }
 
 func RunVariants(prop, repo, verif string) any {
